@@ -468,7 +468,8 @@ class IncomerTls(Incomer):
             data = self.cs.recv(self.bs)
         except socket.error as ex:  # ssl.SSLError is a subtype of socket.error
             # ex.args[0] is always ex.errno for better compat
-            if  ex.args[0] in (ssl.SSL_ERROR_WANT_READ, ssl.SSL_ERROR_WANT_WRITE):
+            if (isinstance(ex, ssl.SSLError) and
+                    ex.args[0] in (ssl.SSL_ERROR_WANT_READ, ssl.SSL_ERROR_WANT_WRITE)):
                 return None  # blocked waiting for data
             elif (isinstance(ex, ssl.SSLEOFError) or
                   ex.args[0] in (errno.ECONNRESET,
@@ -522,7 +523,8 @@ class IncomerTls(Incomer):
             result = self.cs.send(data) #result is number of bytes sent
         except socket.error as ex:  # ssl.SSLError is a subtype of socket.error
             # ex.args[0] is always ex.errno for better compat
-            if ex.args[0] in (ssl.SSL_ERROR_WANT_READ, ssl.SSL_ERROR_WANT_WRITE):
+            if (isinstance(ex, ssl.SSLError) and
+                    ex.args[0] in (ssl.SSL_ERROR_WANT_READ, ssl.SSL_ERROR_WANT_WRITE)):
                 result = 0  # blocked try again
             elif (isinstance(ex, ssl.SSLEOFError) or
                   ex.args[0] in (errno.ECONNRESET,
